@@ -93,6 +93,8 @@ fn judge(sum: &mut Summary, level: &str, case: &Value, verdict: &str, model: u64
         if fam == "index_total" || fam == "aunts+index_total" {
             let (ix, t, n) = (case["index"].as_u64().unwrap(), case["total"].as_u64().unwrap(), case["n"].as_u64().unwrap());
             cls["clause"] = json!(if ix >= t { "index>=total" } else if t != n { "total!=count" } else { "position" });
+            // does the claimed (index, total) walk the tree with the same turns as the honest pair (spec: SamePath)?
+            cls["path"] = json!(case["path"].as_str().unwrap_or("unknown"));
         }
         crate::util::violation(sum, "C13", json!({"class": cls, "case": case, "level": level, "observed": obs.s(), "panic": panic,
             "why": format!("{level}: property demands {verdict}, real code: {} {panic}", obs.s())}));
